@@ -248,6 +248,175 @@ def _indices_fns(t, rel, lines):
     lines.append("")
 
 
+
+# ---- compute_g_differences: the two chains and the recombination (pinned link by link)
+_EXP_LINKS = {
+    "iter::once(sum_of_uv)": "sumOfUv",
+    "iter::once(interpolate_at_r(first_zkp,&challenges[0],&first_lagrange_denominator))": "firstAtC0",
+    "challenges[1..].iter().zip(zkps).map(|(challenge,zkp)|interpolate_at_r(zkp,challenge,&lagrange_denominator))": "zkpsAtTail",
+}
+_GS_LINKS = {
+    "iter::once(compute_sum_share::<F,L_FIRST,P_FIRST>(first_zkp))": "firstSum",
+    "zkps.iter().take(zkps.len()-1).map(compute_sum_share::<F,L,P>)": "initSums",
+    "iter::once(compute_final_sum_share::<F,L,P>(zkps.last().unwrap()))": "lastFinalSum",
+    "iter::once(p_times_q)": "pTimesQ",
+}
+
+
+def _squash(src):
+    src = re.sub(r"//[^\n]*", "", src)
+    src = re.sub(r"\s+", "", src)
+    # trailing commas before a closing parenthesis are not significant
+    return re.sub(r",\)", ")", src)
+
+
+def _split_chain(expr):
+    """`head.chain(a).chain(b)` -> [head, a, b] (top-level `.chain(` only); None if anything else follows."""
+    links, depth, i, start = [], 0, 0, 0
+    head_done = False
+    while i < len(expr):
+        ch = expr[i]
+        if depth == 0 and expr.startswith(".chain(", i):
+            if not head_done:
+                links.append(expr[start:i])
+                head_done = True
+            j, d = i + len(".chain("), 1
+            while j < len(expr) and d > 0:
+                d += expr[j] == "("
+                d -= expr[j] == ")"
+                j += 1
+            if d != 0:
+                return None
+            links.append(expr[i + len(".chain("):j - 1])
+            i = j
+            start = i
+            continue
+        if ch in "([{":
+            depth += 1
+        elif ch in ")]}":
+            depth -= 1
+        i += 1
+    if not head_done:
+        links.append(expr)
+    elif start != len(expr):
+        return None
+    return links
+
+
+def _gdiff(lines_out):
+    rel = "protocol/ipa_prf/malicious_security/verifier.rs"
+    t = read(rel)
+    out = {"expected": None, "gsums": None, "minus": None}
+    m = re.search(r"pub fn compute_g_differences<.*?\n\}\n", t, re.S)
+    if not m:
+        fail(PFX + "gdiff.fn", "compute_g_differences not found")
+        return None
+    body = m.group(0)
+    for key, var, table in (("expected", "expected_sums", _EXP_LINKS), ("gsums", "g_sums", _GS_LINKS)):
+        mm = re.search(r"let " + var + r" = (.*?)\.collect::<Vec<_>>\(\);", body, re.S)
+        if not mm:
+            fail(PFX + "gdiff." + var, "chain statement not found")
+            continue
+        links = _split_chain(_squash(mm.group(1)))
+        if links is None:
+            fail(PFX + "gdiff." + var, "not a plain once/chain expression")
+            continue
+        names = []
+        for l in links:
+            if l not in table:
+                fail(PFX + "gdiff." + var, f"unknown link {l[:120]!r}")
+                names = None
+                break
+            names.append(table[l])
+        if names is not None:
+            out[key] = names
+            record(PFX + "gdiff." + var, rel, t, re.search(r"let " + var + r" =", t), names)
+    mm = re.search(r"g_sums\s*\.iter\(\)\s*\.zip\(expected_sums\)\s*\.map\(\|\(g_sum, expected_sum\)\| \*g_sum - expected_sum\)\s*\.collect\(\)\s*\}", body)
+    if mm:
+        out["minus"] = True
+        record(PFX + "gdiff.combine", rel, t, re.search(r"g_sums\s*\.iter\(\)\s*\.zip\(expected_sums\)", t), "g_sum - expected_sum, zipped in order")
+    else:
+        fail(PFX + "gdiff.combine", "final zip/map (g_sum - expected_sum) not recognised")
+    # nothing else may happen in the body: denominators, the two chains, the combination
+    stmts = re.findall(r"\n    let (\w+)", body)
+    if stmts == ["first_lagrange_denominator", "lagrange_denominator", "expected_sums", "g_sums"]:
+        record(PFX + "gdiff.statements", rel, t, m, stmts)
+    else:
+        fail(PFX + "gdiff.statements", f"unexpected statements {stmts}")
+    for name, pat, val in (
+        ("gdiff.denominators", r"let first_lagrange_denominator: CanonicalLagrangeDenominator<F, P_FIRST> =\s*CanonicalLagrangeDenominator::<F, P_FIRST>::new\(\);\s*let lagrange_denominator: CanonicalLagrangeDenominator<F, P> =\s*CanonicalLagrangeDenominator::<F, P>::new\(\);", "P_FIRST / P points"),
+        ("gdiff.interpolate_at_r", r"let lagrange_table_g = LagrangeTable::<F, P, 1>::new\(lagrange_denominator, r\);\s*lagrange_table_g\.eval\(zkp\)\[0\]", "table row at r, dot with the proof"),
+        ("gdiff.compute_sum_share", r"pub fn compute_sum_share<F: PrimeField, const L: usize, const P: usize>\(zkp: &\[F; P\]\) -> F \{\s*\(0\.\.L\)\.fold\(F::ZERO, \|acc, i\| acc \+ zkp\[i\]\)\s*\}", "sum of entries 0..L"),
+        ("gdiff.compute_final_sum_share", r"pub fn compute_final_sum_share<F: PrimeField, const L: usize, const P: usize>\(zkp: &\[F; P\]\) -> F \{\s*\(1\.\.L\)\.fold\(F::ZERO, \|acc, i\| acc \+ zkp\[i\]\)\s*\}", "sum of entries 1..L"),
+        ("gdiff.last_array", r"last_array\[L - 1\] = last_u_or_v_values\[0\];\s*last_array\[0\] = p_or_q_0;\s*last_array\[1\.\.last_u_or_v_values\.len\(\)\]\.copy_from_slice\(&last_u_or_v_values\[1\.\.\]\);", "[mask, v1.., v0]"),
+        ("gdiff.final_recursions", r"for lagrange_table in tables\.iter\(\)\.take\(recursions_after_first - 1\) \{\s*iterator = Box::new\(recurse_u_or_v\(iterator, lagrange_table\)\);\s*\}", "challenges.len() - 2 plain recursions"),
+    ):
+        mm = re.search(pat, t)
+        if mm:
+            record(PFX + name, rel, t, mm, val)
+        else:
+            fail(PFX + name, "shape not recognised")
+    # how BatchToVerify::verify calls it and recombines
+    rel2 = "protocol/ipa_prf/validation_protocol/validation.rs"
+    t2 = read(rel2)
+    for name, pat, val in (
+        ("verify.diff_left", r"let diff_left = compute_g_differences::<_, CPL, CRF, FPL, FRF>\(\s*&self\.first_proof_from_left_prover,\s*&self\.proofs_from_left_prover,\s*challenges_for_left_prover,\s*Fp61BitPrime::ZERO,\s*Fp61BitPrime::ZERO,\s*\);", "right verifier: shares of the left prover, sum 0, p*q 0"),
+        ("verify.diff_right", r"let diff_right = compute_g_differences::<_, CPL, CRF, FPL, FRF>\(\s*&self\.first_proof_from_right_prover,\s*&self\.proofs_from_right_prover,\s*challenges_for_right_prover,\s*sum_of_uv_right,\s*p_times_q_right,\s*\);", "left verifier: shares of the right prover, claimed sum, p(r)*q(r)"),
+        ("verify.recombine", r"let diff = zip\(diff_right, diff_right_from_other_verifier\)\s*\.map\(\|\(a, b\)\| a \+ b\)\s*\.collect::<Vec<_>>\(\);\s*if diff\.ct_ne\(&vec!\[Fp61BitPrime::ZERO; length\]\)\.into\(\) \{\s*return Err\(Error::DZKPValidationFailed\);\s*\}", "sum of the two difference vectors must be all zero"),
+        ("verify.p_times_q", r"Ok\(p_r_right_prover \* q_r_right_prover\)", "p(r) * q(r)"),
+    ):
+        mm = re.search(pat, t2)
+        if mm:
+            record(PFX + name, rel2, t2, mm, val)
+        else:
+            fail(PFX + name, "shape not recognised")
+    # prover side: share splitting and the order of the loop body
+    rel3 = "protocol/ipa_prf/malicious_security/prover.rs"
+    t3 = read(rel3)
+    for name, pat, val in (
+        ("prover.share_split", r"proof_other_share\[i\] = proof\[i\] - proof_prss_share\[i\];", "left share = proof - PRSS share"),
+        ("prover.challenge", r"let r: F = hash_to_field\(\s*&compute_hash\(proof_left\),\s*&compute_hash\(proof_right\),\s*L\.try_into\(\)\.unwrap\(\),\s*\);", "r = H(left share, right share), excluding 0..L"),
+        ("prover.set_masks", r"u_values\[CompressedProofGenerator::RECURSION_FACTOR - 1\] = u_values\[0\];\s*v_values\[CompressedProofGenerator::RECURSION_FACTOR - 1\] = v_values\[0\];\s*// set masks in first position\s*u_values\[0\] = my_p_mask;\s*v_values\[0\] = my_q_mask;", "u[L-1] = u[0]; u[0] = mask"),
+    ):
+        mm = re.search(pat, t3)
+        if mm:
+            record(PFX + name, rel3, t3, mm, val)
+        else:
+            fail(PFX + name, "shape not recognised")
+    return out
+
+
+def _gdiff_file():
+    out = _gdiff(None)
+    exp = (out or {}).get("expected") or []
+    gs = (out or {}).get("gsums") or []
+    minus = bool((out or {}).get("minus"))
+    L = [
+        "/-! GENERATED by tools/extract.py (tools/extractors/c03_dzkp.py) from",
+        "ipa-core/src/protocol/ipa_prf/malicious_security/verifier.rs (`compute_g_differences`) — do not edit.",
+        "Each constructor names one recognised link of the `expected_sums` / `g_sums` iterator chains; the lists give the",
+        "links in source order. -/",
+        "namespace IpaVerif.Generated.DzkpGDiff",
+        "",
+        "/-- links of `expected_sums`: `iter::once(sum_of_uv)`, `iter::once(interpolate_at_r(first_zkp, &challenges[0], ..))`,",
+        "`challenges[1..].iter().zip(zkps).map(|(challenge, zkp)| interpolate_at_r(zkp, challenge, ..))` -/",
+        "inductive Exp | sumOfUv | firstAtC0 | zkpsAtTail",
+        "  deriving DecidableEq, Repr",
+        "/-- links of `g_sums`: `iter::once(compute_sum_share(first_zkp))`, `zkps.iter().take(zkps.len() - 1).map(compute_sum_share)`,",
+        "`iter::once(compute_final_sum_share(zkps.last().unwrap()))`, `iter::once(p_times_q)` -/",
+        "inductive GS | firstSum | initSums | lastFinalSum | pTimesQ",
+        "  deriving DecidableEq, Repr",
+        "",
+        "def expectedChain : List Exp := [" + ", ".join("." + x for x in exp) + "]",
+        "def gChain : List GS := [" + ", ".join("." + x for x in gs) + "]",
+        "/-- `g_sums.iter().zip(expected_sums).map(|(g_sum, expected_sum)| *g_sum - expected_sum)` -/",
+        "def diffIsGMinusE : Bool := " + ("true" if minus else "false"),
+        "",
+        "end IpaVerif.Generated.DzkpGDiff",
+    ]
+    return "\n".join(L) + "\n"
+
+
 def extract():
     lines = [
         "import IpaVerif.Model.PrimeField",
@@ -427,4 +596,4 @@ def extract():
         fail(PFX + "non_zero_prev_power_of_two", "body not recognised")
     lines.append("")
     lines.append("end IpaVerif.Generated.Dzkp")
-    return {"Dzkp.lean": "\n".join(lines) + "\n"}
+    return {"Dzkp.lean": "\n".join(lines) + "\n", "DzkpGDiff.lean": _gdiff_file()}
